@@ -41,9 +41,9 @@ fn fix_visibility_bundle(
 ) {
     for (e, v) in query.iter() {
         cmd.entity(e)
-            .insert(*v)
-            .insert(ViewVisibility::default())
-            .insert(InheritedVisibility::default());
+            .try_insert(*v)
+            .try_insert(ViewVisibility::default())
+            .try_insert(InheritedVisibility::default());
     }
 }
 
@@ -53,7 +53,7 @@ fn fix_missing_global_transforms(
     query: Query<(Entity, &Transform), (Added<Transform>, Without<GlobalTransform>)>,
 ) {
     for (e, &t) in query.iter() {
-        cmd.entity(e).insert(t).insert(GlobalTransform::from(t));
+        cmd.entity(e).try_insert(t).try_insert(GlobalTransform::from(t));
     }
 }
 
@@ -63,7 +63,7 @@ fn fix_missing_cubemap_frusta(
     query: Query<Entity, (Added<PointLight>, Without<CubemapFrusta>)>,
 ) {
     for e in query.iter() {
-        cmd.entity(e).insert(CubemapFrusta::default());
+        cmd.entity(e).try_insert(CubemapFrusta::default());
     }
 }
 
@@ -73,7 +73,7 @@ fn fix_missing_cubemap_visible_entities(
     query: Query<Entity, (Added<PointLight>, Without<CubemapVisibleEntities>)>,
 ) {
     for e in query.iter() {
-        cmd.entity(e).insert(CubemapVisibleEntities::default());
+        cmd.entity(e).try_insert(CubemapVisibleEntities::default());
     }
 }
 
@@ -83,7 +83,7 @@ fn fix_missing_cubemap_frustum_spot(
     query: Query<Entity, (Added<SpotLight>, Without<Frustum>)>,
 ) {
     for e in query.iter() {
-        cmd.entity(e).insert(Frustum::default());
+        cmd.entity(e).try_insert(Frustum::default());
     }
 }
 
@@ -93,7 +93,7 @@ fn fix_missing_cubemap_frusta_directional(
     query: Query<Entity, (Added<DirectionalLight>, Without<CascadesFrusta>)>,
 ) {
     for e in query.iter() {
-        cmd.entity(e).insert(CascadesFrusta::default());
+        cmd.entity(e).try_insert(CascadesFrusta::default());
     }
 }
 
@@ -103,7 +103,7 @@ fn fix_missing_cubemap_visible_entities_directional(
     query: Query<Entity, (Added<DirectionalLight>, Without<CascadesVisibleEntities>)>,
 ) {
     for e in query.iter() {
-        cmd.entity(e).insert(CascadesVisibleEntities::default());
+        cmd.entity(e).try_insert(CascadesVisibleEntities::default());
     }
 }
 
@@ -113,7 +113,7 @@ fn fix_missing_cascades_directional(
     query: Query<Entity, (Added<DirectionalLight>, Without<Cascades>)>,
 ) {
     for e in query.iter() {
-        cmd.entity(e).insert(Cascades::default());
+        cmd.entity(e).try_insert(Cascades::default());
     }
 }
 
@@ -123,6 +123,6 @@ fn fix_missing_cascades_shadow_config_directional(
     query: Query<Entity, (Added<DirectionalLight>, Without<CascadeShadowConfig>)>,
 ) {
     for e in query.iter() {
-        cmd.entity(e).insert(CascadeShadowConfig::default());
+        cmd.entity(e).try_insert(CascadeShadowConfig::default());
     }
 }
